@@ -827,6 +827,25 @@ func condFact(cond ssa.Value, branch bool) (Fact, bool) {
 					return Fact{Op: token.NEQ, X: b.X}, true
 				}
 			}
+			// unsigned comparisons with 0 and 1 in one spelling: x > 0, x >= 1 are x != 0;
+			// x <= 0, x < 1 are x == 0 (also with the operands mirrored)
+			{
+				fx, fy, fop := b.X, b.Y, op
+				if _, xc := fx.(*ssa.Const); xc {
+					fx, fy, fop = fy, fx, swapOp(fop)
+				}
+				if bt, ok := fx.Type().Underlying().(*types.Basic); ok && bt.Info()&types.IsUnsigned != 0 {
+					if k, isK := constUint64(fy); isK {
+						zero := ssa.NewConst(constant.MakeInt64(0), fx.Type())
+						switch {
+						case k == 0 && fop == token.GTR, k == 1 && fop == token.GEQ:
+							return Fact{Op: token.NEQ, X: fx, Y: zero}, true
+						case k == 0 && fop == token.LEQ, k == 1 && fop == token.LSS:
+							return Fact{Op: token.EQL, X: fx, Y: zero}, true
+						}
+					}
+				}
+			}
 			// x&M == M with a single-bit mask M is x&M != 0
 			if op == token.EQL || op == token.NEQ {
 				for _, pr := range [][2]ssa.Value{{b.X, b.Y}, {b.Y, b.X}} {
